@@ -214,7 +214,7 @@ class SymCtx:
             t = boolterm(cond)
         self._discharge(rec, t, info)
 
-    def check_eq(self, name: str, a, b, rel: float = 0.0, abs: float = 0.0, info: Optional[dict] = None):
+    def check_eq(self, name: str, a, b, rel: float = 0.0, abs: float = 0.0, info: Optional[dict] = None, tight: bool = False):
         """a == b (rel = abs = 0) or |a - b| <= rel*max(|a|,|b|) + abs"""
         la, lb = lift(a), lift(b)
         if la is None or lb is None:
@@ -506,7 +506,7 @@ class ConcreteCtx:
         else:
             self.failures.append(ReplayFailure(name, info))
 
-    def check_eq(self, name, a, b, rel=0.0, abs=0.0, info=None):
+    def check_eq(self, name, a, b, rel=0.0, abs=0.0, info=None, tight=False):
         if isinstance(a, (int, float)) and isinstance(b, (int, float)):
             a, b = float(a), float(b)
             if a != a or b != b:
@@ -516,6 +516,8 @@ class ConcreteCtx:
                 # ulps where the symbolic claim is exact equality over the reals
                 r = rel / 2 if rel else 0.0
                 ab = abs / 2 if abs else 0.0
+                if tight:   # ulp-level claims proved under the rounding model hold natively as stated
+                    r, ab = rel, abs
                 if rel == 0 and abs == 0:
                     r, ab = 1e-12, 1e-300
                 ok = math.fabs(a - b) <= r * max(math.fabs(a), math.fabs(b)) + ab
